@@ -313,6 +313,10 @@ func init() {
 	// ---------------------------------------------------------------- sync
 	externals["(*sync.Mutex).Lock"] = func(fr *frame, args []value) value {
 		ls := fr.i.lockOf(cell(args[0]))
+		if fr.i.sch != nil {
+			fr.i.sch.lock(ls)
+			return nil
+		}
 		if ls.writer {
 			panic(targetHang{"self-deadlock: sync.Mutex locked twice by the same goroutine"})
 		}
@@ -321,6 +325,9 @@ func init() {
 	}
 	externals["(*sync.Mutex).TryLock"] = func(fr *frame, args []value) value {
 		ls := fr.i.lockOf(cell(args[0]))
+		if fr.i.sch != nil {
+			fr.i.sch.yield(nil)
+		}
 		if ls.writer {
 			return false
 		}
@@ -333,10 +340,17 @@ func init() {
 			panic(targetPanic{iface{fr.i.runtimeErrorString, "sync: unlock of unlocked mutex"}})
 		}
 		ls.writer = false
+		if fr.i.sch != nil {
+			fr.i.sch.yield(nil)
+		}
 		return nil
 	}
 	externals["(*sync.RWMutex).Lock"] = func(fr *frame, args []value) value {
 		ls := fr.i.lockOf(cell(args[0]))
+		if fr.i.sch != nil {
+			fr.i.sch.lock(ls)
+			return nil
+		}
 		if ls.writer || ls.readers > 0 {
 			panic(targetHang{"self-deadlock: sync.RWMutex.Lock while already held by the same goroutine"})
 		}
@@ -349,10 +363,17 @@ func init() {
 			panic(targetPanic{iface{fr.i.runtimeErrorString, "sync: Unlock of unlocked RWMutex"}})
 		}
 		ls.writer = false
+		if fr.i.sch != nil {
+			fr.i.sch.yield(nil)
+		}
 		return nil
 	}
 	externals["(*sync.RWMutex).RLock"] = func(fr *frame, args []value) value {
 		ls := fr.i.lockOf(cell(args[0]))
+		if fr.i.sch != nil {
+			fr.i.sch.rlock(ls)
+			return nil
+		}
 		if ls.writer {
 			panic(targetHang{"self-deadlock: sync.RWMutex.RLock while write-locked by the same goroutine"})
 		}
@@ -365,11 +386,25 @@ func init() {
 			panic(targetPanic{iface{fr.i.runtimeErrorString, "sync: RUnlock of unlocked RWMutex"}})
 		}
 		ls.readers--
+		if fr.i.sch != nil {
+			fr.i.sch.yield(nil)
+		}
 		return nil
 	}
 	externals["(*sync.Once).Do"] = func(fr *frame, args []value) value {
 		in := fr.i
 		k := cell(args[0])
+		if in.sch != nil {
+			s := in.sch
+			s.yield(func() bool { return s.onces[k] != 1 })
+			if !in.onceDone[k] {
+				in.onceDone[k] = true
+				s.onces[k] = 1
+				call(in, fr, 0, args[1], nil)
+				s.onces[k] = 2
+			}
+			return nil
+		}
 		if !in.onceDone[k] {
 			in.onceDone[k] = true
 			call(in, fr, 0, args[1], nil)
